@@ -27,6 +27,7 @@ func runC03(c *fw.Ctx) {
 	r32(c)
 	r33(c)
 	r34(c)
+	methodExprReceiver(c, "R3.5")
 }
 
 // typeTable: container kind -> canonical (key, elem) pairs returned.
@@ -349,12 +350,16 @@ func r33(c *fw.Ctx) {
 						}
 					}
 				}
-				// t = types.NewPointer(t)
-				if call, ok := unparen(as.Rhs[0]).(*ast.CallExpr); ok && isFunc(callee(info, call), "go/types", "NewPointer") && len(call.Args) == 1 {
-					if exprString(call.Args[0]) == lhs {
+			}
+			// the reported type gets its pointer form in the same branch (t = types.NewPointer(t), or the
+			// pointer type is built where the reported variable is made)
+			for _, st := range blk.List {
+				ast.Inspect(st, func(k ast.Node) bool {
+					if call, ok := k.(*ast.CallExpr); ok && isFunc(callee(info, call), "go/types", "NewPointer") {
 						typeWrapped = true
 					}
-				}
+					return true
+				})
 			}
 			if wrapPos != token.NoPos {
 				n++
@@ -431,4 +436,99 @@ func r34(c *fw.Ctx) {
 			"%d of %d normal paths of NewAt overwrite the remembered %s with this spec's parameter: a later implicit repetition (Next) would otherwise repeat an older spec's %s", nSet, nNormal, fld.Name(), fld.Name())
 	}
 	c.Floor(rule, "remembered fields", len(fields), 2)
+}
+
+// R3.5 (also run for C08 as R8.4): the signature reported for a method expression T.M / (*T).M takes, as its
+// first parameter, the type the expression was written on - not the receiver the method was declared with
+// (for a promoted method that is the embedded type). In methodSigOf, on every normal path the receiver
+// variable handed to toFuncSig is data-dependent on the written type (the TypeType operand's type).
+func methodExprReceiver(c *fw.Ctx, rule string) {
+	fd, p := needDecl(c, rule, "(*CodeBuilder).methodSigOf")
+	if fd == nil {
+		return
+	}
+	info := p.TypesInfo
+	paths, trunc := enumPaths(info, fd.Body)
+	if trunc {
+		c.Undecided(rule, "methodSigOf/paths", fd.Pos(), "too many paths")
+		return
+	}
+	// roots: expressions reading the written type: X.Type.(*TypeType).typ / .Type()
+	isRoot := func(e ast.Expr) bool {
+		found := false
+		ast.Inspect(e, func(n ast.Node) bool {
+			if ta, ok := n.(*ast.TypeAssertExpr); ok && ta.Type != nil && namedIs(info.TypeOf(ta.Type), fw.Mod, "TypeType") {
+				found = true
+			}
+			return !found
+		})
+		return found
+	}
+	nCalls, nOK := 0, 0
+	bad := token.NoPos
+	for _, pa := range paths {
+		if pa.Abnormal {
+			continue
+		}
+		dep := map[types.Object]bool{}
+		mentions := func(e ast.Expr) bool {
+			if isRoot(e) {
+				return true
+			}
+			m := false
+			ast.Inspect(e, func(n ast.Node) bool {
+				if id, ok := n.(*ast.Ident); ok && dep[info.Uses[id]] {
+					m = true
+				}
+				return !m
+			})
+			return m
+		}
+		for _, nd := range pa.Nodes {
+			// assignments update the dependence of their targets (strong update on this path)
+			if as, ok := nd.(*ast.AssignStmt); ok {
+				for i, l := range as.Lhs {
+					id, ok := unparen(l).(*ast.Ident)
+					if !ok {
+						continue
+					}
+					o := info.Defs[id]
+					if o == nil {
+						o = info.Uses[id]
+					}
+					var rhs ast.Expr
+					if len(as.Lhs) == len(as.Rhs) {
+						rhs = as.Rhs[i]
+					} else if len(as.Rhs) == 1 {
+						rhs = as.Rhs[0]
+					}
+					if rhs != nil && o != nil {
+						dep[o] = mentions(rhs)
+					}
+				}
+			}
+			ast.Inspect(nd, func(n ast.Node) bool {
+				call, ok := n.(*ast.CallExpr)
+				if !ok || !isFunc(callee(info, call), fw.Mod, "toFuncSig") || len(call.Args) != 2 {
+					return true
+				}
+				nCalls++
+				if mentions(call.Args[1]) {
+					nOK++
+				} else if bad == token.NoPos {
+					bad = call.Pos()
+				}
+				return true
+			})
+		}
+	}
+	if nCalls == 0 {
+		c.Undecided(rule, "methodSigOf/toFuncSig", fd.Pos(), "no path of methodSigOf builds the function signature through toFuncSig")
+		return
+	}
+	if bad == token.NoPos {
+		bad = fd.Pos()
+	}
+	c.Check(nOK == nCalls, rule, "methodSigOf/receiver-is-the-written-type", bad,
+		"on %d of %d path occurrences the first parameter of the method-expression signature derives from the type the expression was written on; elsewhere it is the declared receiver: for a promoted method `Outer.M` the reported type would be func(Inner, ...) while Go's is func(Outer, ...)", nOK, nCalls)
 }
